@@ -1,6 +1,6 @@
 #!/bin/bash
-# ingest seeds one at a time as they appear under /tmp/seedwork/<Cxx>/seed_out/<n>/meta.json
-mkdir -p /tmp/ingest_logs
+# ingest seeds as they appear under /tmp/seedwork/<Cxx>/seed_out/<n>/meta.json (several instances may run)
+mkdir -p /tmp/ingest_logs/locks
 while true; do
   did=0
   for m in /tmp/seedwork/C*/seed_out/*/meta.json; do
@@ -9,10 +9,11 @@ while true; do
     [ -f "$d/patch.diff" ] && [ -f "$d/demo.py" ] || continue
     log=/tmp/ingest_logs/$p-$n.log
     [ -f "$log" ] && continue
-    # only registered checks can be evaluated
     grep -q "\"$p\"" /verif/tools/manifest_data.py || continue
-    echo "ingesting $p-$n" >> /tmp/ingest_logs/daemon.log
-    /verif/tools/ingest_seed.py $p $n > "$log" 2>&1
+    mkdir /tmp/ingest_logs/locks/$p-$n 2>/dev/null || continue
+    echo "$(date +%H:%M) ingesting $p-$n" >> /tmp/ingest_logs/daemon.log
+    /verif/tools/ingest_seed.py $p $n --procs 8 > "$log.tmp" 2>&1
+    mv "$log.tmp" "$log"
     did=1
   done
   [ -f /tmp/ingest_logs/STOP ] && exit 0
